@@ -530,7 +530,7 @@ def nontrivial_world(case, obs):
 
 WORLD_RULE = ("engine world: seeded scripts of 4..140 operations over two worlds and 8 component layouts (ZST, "
               "ZST with alignment 8, 4/8-byte, heap-owning, align-64, 24-byte align-1, 320-byte): spawn (static tuples in "
-              "any field order from a 68-type catalogue, 8 derived Bundle structs, EntityBuilder bundles), spawn_at, insert, remove, exchange, "
+              "any field order from a 68-type catalogue, 8 derived Bundle structs and a generic derived struct at 3 instantiations, EntityBuilder bundles), spawn_at, insert, remove, exchange, "
               "despawn, take (dropped / moved to the other world), clear, reserve_entity/entities, flush, reserve::<T>, "
               "spawn_batch, spawn_column_batch(_at) (iterators consumed fully or dropped after k handles), Extend; handles named by table "
               "index or forged bit patterns; single-component calls go through insert_one/remove_one/exchange_one; remove/exchange "
@@ -1102,7 +1102,7 @@ def gen_serde(malformed, quick_n, thorough_n):
 SERDE_RULE = (WORLD_RULE + ". Serialisation operations on the worlds the history reaches (holes in the id space, bumped "
               "generations, emptied archetypes, unhandled extra components): row and column format, serialize_satisfying "
               "with 9 query types, through a strict token-tree backend whose serializer records announced vs actual "
-              "lengths and whose deserializer runs in self-describing and in length-driven mode; the token tree is "
+              "lengths and whose deserializer runs in self-describing and in length-driven mode; one world per run holds an archetype of 4097 entities; the token tree is "
               "compared with the model's; for C15 the tree is mutated (replace node by a number, drop/duplicate elements, "
               "change announced lengths, swap elements, shift numbers, replace by an empty sequence, append one element more than "
               "announced, give the second handle of a list the id of the first with the next generation; node chosen by "
